@@ -22,8 +22,12 @@ Section GenC.
   Variable Rep : St -> bytes -> Prop.
   Variable Src : Z -> Prop.        (* the errors the source can report *)
 
-  (* model error code c against the reference's cause set m *)
-  Definition errok (c m : Z) : Prop := allowed c m = true \/ (Src c /\ m = E_TRUNC).
+  (* model error code c against the reference's cause set m: an own protocol error naming an
+     allowed cause other than truncation (these skippers never say "buffer too short" themselves:
+     running out of input is the source's error), or an error of the source exactly where the
+     reference parse fails by truncation *)
+  Definition errok (c m : Z) : Prop :=
+    (allowed c m = true /\ c <> e_too_short) \/ (Src c /\ m = E_TRUNC).
 
   Definition ctsim (x : sres St unit) (r : bytes) (y : pres) : Prop :=
     match y with
@@ -91,8 +95,8 @@ Section GenC.
     ctsim x r y -> ctsim x r (do (n, h) <- y; Ok (n, S h)).
   Proof. unfold ctsim. destruct y as [[n h]|er| |]; cbn [bind]; tauto. Qed.
 
-  Lemma errok_own c m : allowed c m = true -> errok c m.
-  Proof. intros H. left. exact H. Qed.
+  Lemma errok_own c m : allowed c m = true -> c <> e_too_short -> errok c m.
+  Proof. intros H H'. left. split; assumption. Qed.
   Lemma errok_src c : Src c -> errok c E_TRUNC.
   Proof. intros H. right. split; [exact H|reflexivity]. Qed.
 End GenC.
@@ -172,7 +176,7 @@ Section TplC.
     tsimc (tskip skipN d fu s t) r (rc inl_none d t r).
   Proof.
     induction d as [|d IH]; intros s r t HR Ht HP.
-    { cbn [tskip rc ctsim]. exists s, e_depth. split; [reflexivity|apply errok_own, allowed_depth0]. }
+    { cbn [tskip rc ctsim]. exists s, e_depth. split; [reflexivity|apply errok_own; [apply allowed_depth0|discriminate]]. }
     assert (Hlen : (length r < fu)%nat) by apply HP.
     rewrite rc_S. cbn [tskip]. rewrite (tts_ok STpl t Ht). unfold sret at 1. cbn [sbind].
     rewrite fixed_width_pos.
@@ -188,7 +192,7 @@ Section TplC.
       pose proof (unbe4_lt r (Rep_wf _ _ HR)) as Hu. set (u := unbe (take 4 r)) in *.
       cbv zeta. rewrite i32_neg by exact Hu.
       destruct (N.leb_spec two31 u) as [Hneg|Hpos].
-      { cbn [ctsim]. exists s1, e_neg_size. split; [reflexivity|apply errok_own; reflexivity]. }
+      { cbn [ctsim]. exists s1, e_neg_size. split; [reflexivity|apply errok_own; [reflexivity|discriminate]]. }
       rewrite i32_small by exact Hpos. rewrite N2Z.id.
       rewrite hasn_le. destruct (N.leb_spec u (len (drop 4 r))) as [Hle|Hle].
       + destruct (SN_ok s1 (drop 4 r) u HR1 Hle) as [s2 [E2 HR2]]. rewrite E2. cbn.
@@ -214,7 +218,7 @@ Section TplC.
       pose proof (unbe4_lt r2 W2) as Hu. set (u := unbe (take 4 r2)) in *.
       rewrite i32_neg by exact Hu.
       destruct (N.leb_spec two31 u) as [Hneg|Hpos].
-      { cbn [ctsim]. exists s1, e_neg_size. split; [reflexivity|apply errok_own; reflexivity]. }
+      { cbn [ctsim]. exists s1, e_neg_size. split; [reflexivity|apply errok_own; [reflexivity|discriminate]]. }
       rewrite i32_small by exact Hpos.
       rewrite (tts_ok STpl kt Hkt), (tts_ok STpl vt Hvt). unfold sret. cbn [sbind].
       rewrite !fixed_width_pos.
@@ -252,7 +256,7 @@ Section TplC.
       pose proof (unbe4_lt r1 W1) as Hu. set (u := unbe (take 4 r1)) in *.
       rewrite i32_neg by exact Hu.
       destruct (N.leb_spec two31 u) as [Hneg|Hpos].
-      { cbn [ctsim]. exists s1, e_neg_size. split; [reflexivity|apply errok_own; reflexivity]. }
+      { cbn [ctsim]. exists s1, e_neg_size. split; [reflexivity|apply errok_own; [reflexivity|discriminate]]. }
       rewrite i32_small by exact Hpos.
       rewrite (tts_ok STpl et Het). unfold sret. cbn [sbind].
       rewrite !fixed_width_pos.
@@ -273,7 +277,7 @@ Section TplC.
         * intros s0 r0 HR0 HP0; apply IH; assumption.
         * apply rc_good.
         * apply ldrop1.
-    - cbn [ctsim]. exists s, e_unknown_type. split; [reflexivity|apply errok_own, allowed_unknown, K].
+    - cbn [ctsim]. exists s, e_unknown_type. split; [reflexivity|apply errok_own; [apply allowed_unknown, K|discriminate]].
   Qed.
 End TplC.
 
@@ -507,7 +511,7 @@ Section ReaderContractD.
       pose proof (unbe4_lt r (br_rep_wf _ _ HR)) as Hu. set (u := unbe (take 4 r)) in *.
       destruct (N.leb_spec two31 u) as [Hneg|Hpos].
       { rewrite (br_skipn_neg st1 (i32 u)).
-        - cbn [ctsim]. exists st1, e_neg_size. split; [reflexivity|apply errok_own; reflexivity].
+        - cbn [ctsim]. exists st1, e_neg_size. split; [reflexivity|apply errok_own; [reflexivity|discriminate]].
         - apply Z.ltb_lt. rewrite i32_neg by exact Hu. apply N.leb_le. exact Hneg. }
       rewrite i32_small by exact Hpos.
       pose proof (br_skipn_exact_c st1 (drop 4 r) u O HR1) as X. unfold ctsim in *.
@@ -603,7 +607,7 @@ Section ReaderContractD.
       bsimc (brskip d fu st t) r (rc inl_br d t r).
     Proof.
       induction d as [|d IH]; intros st r t HR Ht HP.
-      { cbn [brskip rc ctsim]. exists st, e_depth. split; [reflexivity|apply errok_own, allowed_depth0]. }
+      { cbn [brskip rc ctsim]. exists st, e_depth. split; [reflexivity|apply errok_own; [apply allowed_depth0|discriminate]]. }
       assert (Hlen : (length r < fu)%nat) by apply HP.
       assert (IH' : forall t st r, t < 256 -> br_rep st r -> P r -> bsimc (brskip d fu st t) r (rc inl_br d t r))
         by (intros; apply IH; assumption).
@@ -636,7 +640,7 @@ Section ReaderContractD.
         pose proof (unbe4_lt r2 W2) as Hu. set (u := unbe (take 4 r2)) in *.
         rewrite i32_neg by exact Hu.
         destruct (N.leb_spec two31 u) as [Hneg|Hpos].
-        { cbn [ctsim]. exists st1, e_neg_size. split; [reflexivity|apply errok_own; reflexivity]. }
+        { cbn [ctsim]. exists st1, e_neg_size. split; [reflexivity|apply errok_own; [reflexivity|discriminate]]. }
         rewrite (tts_ok SBufferReader kt Hkt), (tts_ok SBufferReader vt Hvt). unfold sret. cbn [sbind].
         rewrite !fixed_width_pos.
         unfold rp_em, rp_m. cbn [inl_br in_map_fixed in_map_str]. rewrite Bool.orb_true_r.
@@ -674,7 +678,7 @@ Section ReaderContractD.
         pose proof (unbe4_lt r1 W1) as Hu. set (u := unbe (take 4 r1)) in *.
         rewrite i32_neg by exact Hu.
         destruct (N.leb_spec two31 u) as [Hneg|Hpos].
-        { cbn [ctsim]. exists st1, e_neg_size. split; [reflexivity|apply errok_own; reflexivity]. }
+        { cbn [ctsim]. exists st1, e_neg_size. split; [reflexivity|apply errok_own; [reflexivity|discriminate]]. }
         rewrite (tts_ok SBufferReader et Het). unfold sret. cbn [sbind].
         rewrite !fixed_width_pos.
         unfold rp_el. cbn [inl_br in_list_str].
@@ -691,7 +695,7 @@ Section ReaderContractD.
           * intros s0 r0 HR0 HP0; apply br_lelem_csim; assumption.
           * apply member_good, rc_good.
           * apply ldrop1.
-      - cbn [ctsim]. exists st, e_unknown_type. split; [reflexivity|apply errok_own, allowed_unknown, K].
+      - cbn [ctsim]. exists st, e_unknown_type. split; [reflexivity|apply errok_own; [apply allowed_unknown, K|discriminate]].
     Qed.
   End StreamD.
 
